@@ -103,17 +103,13 @@ pub(crate) fn validate_submit(
                 }
             }
         }
-        JobTaskDescription::Graph {
-            tasks,
-            resource_rqs,
-        } => {
+        JobTaskDescription::Graph { tasks, .. } => {
             if let Some(job) = job {
                 for task in tasks {
                     if job.tasks.contains_key(&task.id) {
                         let id = task.id;
                         return Some(SubmitResponse::TaskIdAlreadyExists(id));
                     }
-                    assert!(task.resource_rq_id.as_usize() < resource_rqs.len())
                 }
             }
             let mut task_ids = Set::new();
@@ -168,6 +164,24 @@ pub(crate) fn handle_submit(
                 entries.len()
             ));
         }
+    }
+
+    if let JobTaskDescription::Graph {
+        tasks,
+        resource_rqs,
+    } = &message.submit_desc.task_desc
+        && let Some(task) = tasks
+            .iter()
+            .find(|task| task.resource_rq_id.as_usize() >= resource_rqs.len())
+    {
+        // Each task has to refer to a resource request defined in the submit, otherwise the
+        // task cannot be built (and that would be found only after the submit is journaled).
+        return ToClientMessage::Error(format!(
+            "Invalid submit: task {} refers to resource request {}, but the submit defines only {} resource request(s)",
+            task.id,
+            task.resource_rq_id,
+            resource_rqs.len()
+        ));
     }
 
     let (job_id, new_job) = if let Some(job_id) = message.job_id {
